@@ -66,7 +66,8 @@ fn main() {
     // refusal: every lax diagram with at least one pending unification
     let lspec = if quick { Spec::lax(2, 1, 1, 2, 1, 1, 1, 2) } else { Spec::lax(3, 1, 2, 2, 1, 1, 1, 2) };
     let lu = lspec.universe();
-    let tfs_r: Vec<TF> = vec![TF { n: [1, 1, 1], recipe: 0 }, TF { n: [2, 0, 1], recipe: 1 }, TF { n: [0, 2, 1], recipe: 2 }];
+    // refusal must not depend on the functor: identity-like, enlarging / erasing, and erasing EVERY object
+    let tfs_r: Vec<TF> = vec![TF { n: [1, 1, 1], recipe: 0 }, TF { n: [2, 0, 1], recipe: 1 }, TF { n: [0, 2, 1], recipe: 2 }, TF { n: [0, 0, 0], recipe: 0 }, TF { n: [0, 0, 0], recipe: 6 }];
     ctx.run_slice(Slice::new(format!("refusal[{} with >=1 pending pair x {} functors]", lspec.name(), tfs_r.len()), lu.count(), |i, loc| {
         let l = lu.get(i);
         if !l.quot.is_empty() {
